@@ -43,10 +43,44 @@ def model_cases(tier, wd, res):
     for i, h in enumerate(tlc.extract_cases(out)):
         if not any(x["op"] == "tick" for x in h):
             continue   # nothing was ever persisted: nothing to restore
-        steps = prefix() + render.steps_of_hist(concretize(h, i))
+        # what the model holds in memory after every step (persistence state, version per key)
+        posts = [x.pop("post", None) for x in h]
+        pre = prefix()
+        steps = pre + render.steps_of_hist(concretize(h, i))
+        for j, po in enumerate(posts):
+            if po is not None:
+                steps[len(pre) + j]["expect_mem"] = po
         if h[-1]["op"] != "restart":
             steps.append({"restart": 1, "op": {"op": "restart"}})
         cases.append({"id": "m%d" % i, "steps": steps, "strategy": "none"})
+    return cases
+
+
+def second_wave(found, by_id, limit=16):
+    """The model no longer describes the node after these steps: the generated histories do not cover what the
+    node does from there.  From each such step: every sequence of up to three operations on the key, closed by a
+    snapshot (incremental / reclaiming / incremental, remove, incremental) and a restart."""
+    import itertools
+    cases = []
+    for n, (sig, (cid, i, k)) in enumerate(sorted(found.items(), key=lambda x: str(x))[:limit]):
+        base = by_id[cid]["steps"][:i + 1]
+        ops = [{"op": "set", "k": k, "v": "w"}, {"op": "increment", "k": k, "n": 1}, {"op": "remove", "k": k}]
+        closures = [[False], [True], [False, "remove", False]]
+        for ln in (1, 2, 3):
+            for seq in itertools.product(ops, repeat=ln):
+                for ci, clo in enumerate(closures):
+                    steps = [dict(s) for s in base] + [render.step("c1", dict(o)) for o in seq]
+                    for x in clo:
+                        if x == "remove":
+                            steps.append(render.step("c1", {"op": "remove", "k": k}))
+                        else:
+                            steps.append(render.step("a", {"op": "snapshot", "reclaim": x, "names": ["d"]}))
+                            steps.append({"tick": 1, "op": {"op": "tick"}})
+                    steps.append({"restart": 1, "op": {"op": "restart"}})
+                    for s in steps:
+                        s.pop("expect_mem", None)
+                    cases.append(fix_sessions({"id": "x%d_%d_%d" % (n, len(cases), ci), "steps": steps, "strategy": "none",
+                                               "follow_ticks": True}))
     return cases
 
 
@@ -112,6 +146,21 @@ def run(tier, seed):
     common.normalize_all(raws, norm_path)
     out = common.validate_into(res, norm_path, "Trace_Restore.tla", "Trace_Restore.cfg", [], devs,
                                "/dev/null", wd, by_id)
+    # where the node's memory is not what NunDisk says after a step, the histories above (one per transition of
+    # the MODEL) do not cover the node: a second wave explores from those steps, judged by the same reference
+    import wave2 as w2mod
+    found = w2mod.drifts(raws, by_id)
+    wave2 = second_wave(found, by_id)
+    out2 = {"runs": 0, "events": 0}
+    if wave2:
+        by_id2 = {c["id"]: c for c in wave2}
+        wd2 = os.path.join(wd, "wave2")
+        os.makedirs(wd2, exist_ok=True)
+        raws2 = common.run_cases_parallel("seq", wave2, wd2)
+        norm2 = os.path.join(wd2, "norm.ndjson")
+        common.normalize_all(raws2, norm2)
+        out2 = common.validate_into(res, norm2, "Trace_Restore.tla", "Trace_Restore.cfg", [], devs,
+                                    "/dev/null", wd2, by_id2)
     import snapfollow
     n_snaps, shards = snapfollow.normalize(raws, os.path.join(wd, "snapfollow"))
     checked, bad = snapfollow.validate(shards)
@@ -122,7 +171,9 @@ def run(tier, seed):
                                        "here; the verdict of C06 is Trace_Restore's)",
                              "completed_snapshots_checked": checked, "not_conforming": len(bad),
                              "first_not_conforming": [list(b) for b in bad[:5]]},
-        "traces_validated_against_impl": out["runs"], "events_validated": out["events"],
+        "traces_validated_against_impl": out["runs"] + out2["runs"], "events_validated": out["events"] + out2["events"],
+        "steps_where_memory_differs_from_NunDisk": w2mod.report(found),
+        "second_wave_cases": len(wave2),
         "model_generated_cases": n_model, "random_cases": len(cases) - n_model,
         "samples": [[s.get("line", s.get("op", {}).get("op")) for s in cases[n_model // 2]["steps"]]],
         "exhaustive": False,
